@@ -66,6 +66,17 @@ def synthesize(src_text, spec):
         if len(hits) != 1:
             raise SiteError(f"expected exactly one assignment to {loc[1]} in {spec['func']}, found {len(hits)}")
         return f"def {fname}({args}):\n    return {ast.unparse(hits[0].value)}\n", fname
+    if kind == "if_or_first":
+        for n in ast.walk(fn):
+            if isinstance(n, ast.If) and isinstance(n.test, ast.BoolOp) and isinstance(n.test.op, ast.Or) and len(n.test.values) == 2:
+                x, y = n.test.values
+                if (isinstance(y, ast.UnaryOp) and isinstance(y.op, ast.Not) and isinstance(y.operand, ast.Call)
+                        and ast.unparse(y.operand.func) == "all" and len(y.operand.args) == 1
+                        and ast.unparse(y.operand.args[0]) == loc[1]):
+                    if n.orelse or len(n.body) != 1 or not isinstance(n.body[0], ast.Raise):
+                        raise SiteError("the broadcast guard is no longer a bare `raise`")
+                    return f"def {fname}({args}):\n    return {ast.unparse(x)}\n", fname
+        raise SiteError(f"`if X or not all({loc[1][:40]}...)` not found in {spec['func']}")
     if kind == "while_test":
         loops = [n for n in fn.body if isinstance(n, ast.While)]
         if len(loops) <= loc[1]:
